@@ -90,6 +90,33 @@ func matrixSets() []*Set {
 }
 
 // ---------------------------------------------------------------------------
+// small: one compact all-shapes message for the bounded-exhaustive history enumeration of C08
+
+func smallSets() []*Set {
+	pkg := "vf.small"
+	f := newFile("small", "small", pkg)
+	leaf := newMsg("."+pkg, "Leaf")
+	leaf.add(field("a", 1, kindSpec{t: tInt32}))
+	f.msg(leaf)
+	lf := kindSpec{t: tMessage, name: "." + pkg + ".Leaf", tag: "message"}
+	m := newMsg("."+pkg, "Small")
+	m.add(field("i", 1, kindSpec{t: tInt32}))
+	m.add(field("b", 2, kindSpec{t: tBytes}))
+	m.add(field("m", 3, lf))
+	m.add(repeated(field("li", 4, kindSpec{t: tSint32})))
+	m.add(repeated(field("lm", 5, lf)))
+	m.addMap("mi", 6, tString, kindSpec{t: tInt64})
+	m.addMap("mm", 7, tInt32, lf)
+	o := m.oneof("o")
+	m.add(inOneof(field("oz", 8, kindSpec{t: tSint32}), o))
+	m.add(inOneof(field("os", 9, kindSpec{t: tString}), o))
+	m.add(inOneof(field("om", 10, lf), o))
+	m.add(field("f", 11, kindSpec{t: tDouble}))
+	f.msg(m)
+	return []*Set{simpleSet("small", f)}
+}
+
+// ---------------------------------------------------------------------------
 // oneofs: several oneofs interleaved with plain fields, numbers out of order
 
 func oneofSets() []*Set {
